@@ -21,9 +21,9 @@ var bigP = new(big.Int).SetUint64(glP)
 // HintEvent is what the monitors see of one NewHint call.
 type HintEvent struct {
 	Stack   [24]uintptr // return PCs of the call (for grouping identical call chains)
-	Name    string // MulAddHint, ReduceHint, InverseHint, SplitLimbsHint, nBits, ...
-	Site    string // static site: innermost repository frames
-	Seq     uint64 // dynamic sequence number within the run
+	Name    string      // MulAddHint, ReduceHint, InverseHint, SplitLimbsHint, nBits, ...
+	Site    string      // static site: innermost repository frames
+	Seq     uint64      // dynamic sequence number within the run
 	Inputs  []*big.Int
 	Honest  []*big.Int // nil when the honest hint function refused
 	Refused bool
